@@ -43,10 +43,24 @@ type Op struct {
 	I   int     `json:"i,omitempty"` // GoWrite index
 	X   int     `json:"x,omitempty"` // GoWrite byte
 }
+type BufInit struct {
+	N    int `json:"n"`
+	Seed int `json:"seed"`
+}
 type Case struct {
-	Bufs []string `json:"bufs"` // initial contents, hex
-	Ops  []Op     `json:"ops"`
-	Wild bool     `json:"wild,omitempty"`
+	Bufs []BufInit `json:"bufs"` // initial contents: N bytes of the generator lcgBytes(Seed)
+	Ops  []Op      `json:"ops"`
+	Wild bool      `json:"wild,omitempty"`
+}
+
+func lcgBytes(n, seed int) []byte {
+	x := uint64(seed) % 2147483648
+	b := make([]byte, n)
+	for i := range b {
+		x = (x*1103515245 + 12345) % 2147483648
+		b[i] = byte((x / 65536) % 256)
+	}
+	return b
 }
 
 var kindNames = []string{"Int8", "Uint8", "Uint8C", "Int16", "Uint16", "Int32", "Uint32", "Float32", "Float64", "BigInt64", "BigUint64"}
@@ -57,7 +71,7 @@ var esize = []int{1, 1, 1, 2, 2, 4, 4, 4, 8, 8, 8}
 func isBig(k int) bool { return k >= 9 }
 
 const guard = 16
-const failTerm = "mkCase [] [] [mkO XPanic false []]"
+const failTerm = "mkCase [] [] [mkO XPanic false 0%Z] 0%Z"
 
 // ---------------------------------------------------------------- execution environment
 
@@ -76,6 +90,9 @@ type env struct {
 	views []viewMeta
 	dvs   []viewMeta
 	B     *goja.Object
+
+	hashValid bool
+	lastHash  uint64
 }
 
 func canaryByte(i int) byte { return byte(0xC3 ^ (i * 29)) }
@@ -129,26 +146,25 @@ func (e *env) canariesOK() bool {
 	return true
 }
 
-func packHex(b []byte) string {
-	var sb strings.Builder
-	sb.WriteString("0x01")
-	for _, x := range b {
-		fmt.Fprintf(&sb, "%02x", x)
+func (e *env) hashGen(mul, mask uint64) uint64 {
+	h := uint64(7)
+	for _, b := range e.bufs {
+		for _, x := range b.mem {
+			h = (h*mul + uint64(x) + 1) & mask
+		}
+		h = (h*mul + 300) & mask
 	}
-	sb.WriteString("%N")
-	return sb.String()
+	return h
 }
 
-// delta returns the Gallina list of (id, packed bytes) of the buffers whose memory changed
-func (e *env) delta() string {
-	var items []string
-	for i, b := range e.bufs {
-		if b.prev == nil || string(b.prev) != string(b.mem) {
-			items = append(items, fmt.Sprintf("(%d%%nat, %s)", i, packHex(b.mem)))
-			b.prev = append([]byte{}, b.mem...)
-		}
+// stepHash returns the 32-bit memory hash, or -1 when it did not change since the previous step
+func (e *env) stepHash() string {
+	h := e.hashGen(257, 4294967295)
+	if e.hashValid && h == e.lastHash {
+		return "(-1)"
 	}
-	return vh.CoqList(items)
+	e.hashValid, e.lastHash = true, h
+	return strconv.FormatUint(h, 10)
 }
 
 // ---------------------------------------------------------------- rendering of arguments
@@ -193,25 +209,47 @@ func jsV(a VArg) string {
 }
 func coqZs(s string) string {
 	if strings.HasPrefix(s, "-") {
-		return "(" + s + ")%Z"
+		return "(" + s + ")"
 	}
-	return s + "%Z"
+	return s
 }
-func coqDet(d int) string {
-	if d == 0 {
-		return "None"
+
+// dy renders a float64 as "m e" with value m * 2^e (e = 9999 for the specials)
+func dy(f float64) string {
+	switch {
+	case math.IsNaN(f):
+		return "0 9999"
+	case math.IsInf(f, 1):
+		return "1 9999"
+	case math.IsInf(f, -1):
+		return "(-1) 9999"
+	case f == 0:
+		if math.Signbit(f) {
+			return "2 9999"
+		}
+		return "0 0"
 	}
-	return fmt.Sprintf("(Some %d%%nat)", d-1)
+	fr, ex := math.Frexp(f)
+	m := int64(fr * (1 << 53))
+	e := ex - 53
+	for m%2 == 0 {
+		m /= 2
+		e++
+	}
+	return coqZs(strconv.FormatInt(m, 10)) + " " + coqZs(strconv.Itoa(e))
 }
 func coqI(a *IArg) string {
 	if a == nil {
 		return "None"
 	}
-	return fmt.Sprintf("(Some (mkI %s %s))", coqZs(a.N), coqDet(a.D))
+	return "(Some " + coqI1(a) + ")"
 }
-func coqI1(a *IArg) string { return fmt.Sprintf("(mkI %s %s)", coqZs(a.N), coqDet(a.D)) }
+func coqI1(a *IArg) string { return fmt.Sprintf("(cI %s %d)", dy(f64FromBits(a.N)), a.D) }
 func coqV(a VArg) string {
-	return fmt.Sprintf("(mkV %s %s %s)", vh.CoqBool(a.Big), coqZs(a.Z), coqDet(a.D))
+	if a.Big {
+		return fmt.Sprintf("(cB %s %d)", coqZs(a.Z), a.D)
+	}
+	return fmt.Sprintf("(cV %s %d)", dy(f64FromBits(a.Z)), a.D)
 }
 
 // ---------------------------------------------------------------- running one op
@@ -241,12 +279,12 @@ func valObs(v goja.Value) string {
 	}
 	switch x := v.Export().(type) {
 	case int64:
-		return fmt.Sprintf("(XNum %s%%Z)", bitsOf(float64(x)))
+		return fmt.Sprintf("(XNum %s)", dy(float64(x)))
 	case float64:
 		if math.IsNaN(x) {
 			x = math.Float64frombits(0x7ff8000000000000)
 		}
-		return fmt.Sprintf("(XNum %s%%Z)", bitsOf(x))
+		return fmt.Sprintf("(XNum %s)", dy(x))
 	case *big.Int:
 		return fmt.Sprintf("(XBig %s)", coqZs(x.String()))
 	}
@@ -323,7 +361,7 @@ func (e *env) runOp(o *Op) (out stepOut) {
 			args += "," + jsI(o.A2)
 		}
 		src = fmt.Sprintf("var t=new %s(%s);V.push(t);t.length", jsCtor[o.K], args)
-		coqOp = fmt.Sprintf("OCtor %s %d%%nat %s %s", kindNames[o.K], o.B, coqI(o.A1), coqI(o.A2))
+		coqOp = fmt.Sprintf("wCtor %s %d %s %s", kindNames[o.K], o.B, coqI(o.A1), coqI(o.A2))
 		kind = 1
 	case "dvctor":
 		args := fmt.Sprintf("B[%d]", o.B)
@@ -334,14 +372,14 @@ func (e *env) runOp(o *Op) (out stepOut) {
 			args += "," + jsI(o.A2)
 		}
 		src = fmt.Sprintf("var t=new DataView(%s);D.push(t);t.byteLength", args)
-		coqOp = fmt.Sprintf("ODvCtor %d%%nat %s %s", o.B, coqI(o.A1), coqI(o.A2))
+		coqOp = fmt.Sprintf("wDvCtor %d %s %s", o.B, coqI(o.A1), coqI(o.A2))
 		kind = 2
 	case "get":
 		src = fmt.Sprintf("V[%d]%s", o.V, keyJS)
-		coqOp = fmt.Sprintf("OGet %d%%nat %s", o.V, keyCoq)
+		coqOp = fmt.Sprintf("wGet %d %s", o.V, keyCoq)
 	case "set":
 		src = fmt.Sprintf("V[%d]%s=%s;undefined", o.V, keyJS, jsV(*o.Val))
-		coqOp = fmt.Sprintf("OSet %d%%nat %s %s", o.V, keyCoq, coqV(*o.Val))
+		coqOp = fmt.Sprintf("wSet %d %s %s", o.V, keyCoq, coqV(*o.Val))
 	case "setarr":
 		var js, cq []string
 		for _, s := range o.Src {
@@ -349,51 +387,51 @@ func (e *env) runOp(o *Op) (out stepOut) {
 			cq = append(cq, coqV(s))
 		}
 		src = fmt.Sprintf("V[%d].set([%s],%s);undefined", o.V, strings.Join(js, ","), jsI(o.A1))
-		coqOp = fmt.Sprintf("OSetArr %d%%nat %s %s", o.V, vh.CoqList(cq), coqI1(o.A1))
+		coqOp = fmt.Sprintf("wSetArr %d %s %s", o.V, vh.CoqList(cq), coqI1(o.A1))
 	case "settyped":
 		src = fmt.Sprintf("V[%d].set(V[%d],%s);undefined", o.V, o.S, jsI(o.A1))
-		coqOp = fmt.Sprintf("OSetTyped %d%%nat %d%%nat %s", o.V, o.S, coqI1(o.A1))
+		coqOp = fmt.Sprintf("wSetTyped %d %d %s", o.V, o.S, coqI1(o.A1))
 	case "copywithin":
 		src = fmt.Sprintf("V[%d].copyWithin(%s,%s,%s);undefined", o.V, jsI(o.A1), jsI(o.A2), jsI(o.A3))
-		coqOp = fmt.Sprintf("OCopyWithin %d%%nat %s %s %s", o.V, coqI1(o.A1), coqI1(o.A2), coqI(o.A3))
+		coqOp = fmt.Sprintf("wCopyWithin %d %s %s %s", o.V, coqI1(o.A1), coqI1(o.A2), coqI(o.A3))
 	case "fill":
 		src = fmt.Sprintf("V[%d].fill(%s,%s,%s);undefined", o.V, jsV(*o.Val), jsI(o.A1), jsI(o.A2))
-		coqOp = fmt.Sprintf("OFill %d%%nat %s %s %s", o.V, coqV(*o.Val), coqI(o.A1), coqI(o.A2))
+		coqOp = fmt.Sprintf("wFill %d %s %s %s", o.V, coqV(*o.Val), coqI(o.A1), coqI(o.A2))
 	case "slice":
 		src = fmt.Sprintf("var t=V[%d].slice(%s,%s);V.push(t);B.push(t.buffer);t.length", o.V, jsI(o.A1), jsI(o.A2))
-		coqOp = fmt.Sprintf("OSlice %d%%nat %s %s", o.V, coqI(o.A1), coqI(o.A2))
+		coqOp = fmt.Sprintf("wSlice %d %s %s", o.V, coqI(o.A1), coqI(o.A2))
 		kind = 1
 	case "subarray":
 		src = fmt.Sprintf("var t=V[%d].subarray(%s,%s);V.push(t);t.length", o.V, jsI(o.A1), jsI(o.A2))
-		coqOp = fmt.Sprintf("OSubarray %d%%nat %s %s", o.V, coqI(o.A1), coqI(o.A2))
+		coqOp = fmt.Sprintf("wSubarray %d %s %s", o.V, coqI(o.A1), coqI(o.A2))
 		kind = 1
 	case "reverse":
 		src = fmt.Sprintf("V[%d].reverse();undefined", o.V)
-		coqOp = fmt.Sprintf("OReverse %d%%nat", o.V)
+		coqOp = fmt.Sprintf("wReverse %d", o.V)
 	case "dvget":
 		src = fmt.Sprintf("D[%d].get%s(%s,%v)", o.V, dvName[o.K], jsI(o.A1), o.Le)
-		coqOp = fmt.Sprintf("ODvGet %d%%nat %s %s %v", o.V, kindNames[dvKind(o.K)], coqI1(o.A1), o.Le)
+		coqOp = fmt.Sprintf("wDvGet %d %s %s %v", o.V, kindNames[dvKind(o.K)], coqI1(o.A1), o.Le)
 	case "dvset":
 		src = fmt.Sprintf("D[%d].set%s(%s,%s,%v);undefined", o.V, dvName[o.K], jsI(o.A1), jsV(*o.Val), o.Le)
-		coqOp = fmt.Sprintf("ODvSet %d%%nat %s %s %s %v", o.V, kindNames[dvKind(o.K)], coqI1(o.A1), coqV(*o.Val), o.Le)
+		coqOp = fmt.Sprintf("wDvSet %d %s %s %s %v", o.V, kindNames[dvKind(o.K)], coqI1(o.A1), coqV(*o.Val), o.Le)
 	case "bufslice":
 		src = fmt.Sprintf("var t=B[%d].slice(%s,%s);B.push(t);t.byteLength", o.B, jsI(o.A1), jsI(o.A2))
-		coqOp = fmt.Sprintf("OBufSlice %d%%nat %s %s", o.B, coqI(o.A1), coqI(o.A2))
+		coqOp = fmt.Sprintf("wBufSlice %d %s %s", o.B, coqI(o.A1), coqI(o.A2))
 		kind = 4
 	case "lens":
 		src = fmt.Sprintf("[V[%d].length,V[%d].byteLength,V[%d].byteOffset]", o.V, o.V, o.V)
-		coqOp = fmt.Sprintf("OLens %d%%nat", o.V)
+		coqOp = fmt.Sprintf("wLens %d", o.V)
 		kind = 3
 	case "gowrite":
 		e.bufs[o.B].mem[o.I] = byte(o.X)
-		out.coqOp = fmt.Sprintf("OGoWrite %d%%nat %d%%Z %d%%N", o.B, o.I, o.X)
-		out.coqObs = fmt.Sprintf("mkO XUndef %s %s", vh.CoqBool(e.canariesOK()), e.delta())
+		out.coqOp = fmt.Sprintf("wGoWrite %d %d %d", o.B, o.I, o.X)
+		out.coqObs = fmt.Sprintf("mkO XUndef %s %s", vh.CoqBool(e.canariesOK()), e.stepHash())
 		out.human = "gowrite"
 		return
 	case "detach":
 		e.bufs[o.B].ab.Detach()
-		out.coqOp = fmt.Sprintf("ODetach %d%%nat", o.B)
-		out.coqObs = fmt.Sprintf("mkO XUndef %s %s", vh.CoqBool(e.canariesOK()), e.delta())
+		out.coqOp = fmt.Sprintf("wDetach %d", o.B)
+		out.coqObs = fmt.Sprintf("mkO XUndef %s %s", vh.CoqBool(e.canariesOK()), e.stepHash())
 		out.human = "detach"
 		return
 	}
@@ -419,7 +457,7 @@ func (e *env) runOp(o *Op) (out stepOut) {
 		switch kind {
 		case 1, 2, 4:
 			n := v.ToInteger()
-			res = fmt.Sprintf("(XNew %d%%Z)", n)
+			res = fmt.Sprintf("(XNew %d)", n)
 			if kind == 4 {
 				e.registerNewBuffers()
 			} else {
@@ -428,7 +466,7 @@ func (e *env) runOp(o *Op) (out stepOut) {
 			}
 		case 3:
 			a := v.ToObject(e.rt)
-			res = fmt.Sprintf("(XLens %d%%Z %d%%Z %d%%Z)", a.Get("0").ToInteger(), a.Get("1").ToInteger(), a.Get("2").ToInteger())
+			res = fmt.Sprintf("(XLens %d %d %d)", a.Get("0").ToInteger(), a.Get("1").ToInteger(), a.Get("2").ToInteger())
 		default:
 			res = valObs(v)
 		}
@@ -438,7 +476,7 @@ func (e *env) runOp(o *Op) (out stepOut) {
 		// a failed constructor-like op must not leave a half-registered object behind
 		e.rt.RunString(fmt.Sprintf("V.length=%d;D.length=%d;B.length=%d;", len(e.views), len(e.dvs), len(e.bufs)))
 	}
-	out.coqObs = fmt.Sprintf("mkO %s %s %s", res, vh.CoqBool(e.canariesOK()), e.delta())
+	out.coqObs = fmt.Sprintf("mkO %s %s %s", res, vh.CoqBool(e.canariesOK()), e.stepHash())
 	return
 }
 
@@ -486,10 +524,9 @@ func decodeHex(s string) []byte {
 func runCase(c Case) vh.Record {
 	var init [][]byte
 	var initCoq []string
-	for _, h := range c.Bufs {
-		b := decodeHex(h)
-		init = append(init, b)
-		initCoq = append(initCoq, packHex(b))
+	for _, bi := range c.Bufs {
+		init = append(init, lcgBytes(bi.N, bi.Seed))
+		initCoq = append(initCoq, fmt.Sprintf("(%d,%d)", bi.N, bi.Seed%2147483648))
 	}
 	e := newEnv(init)
 	var ops, obs, human []string
@@ -541,7 +578,7 @@ func runCase(c Case) vh.Record {
 	}
 	return vh.Record{
 		Case:       vh.MustJSON(c),
-		Coq:        fmt.Sprintf("mkCase %s %s %s", vh.CoqList(initCoq), vh.CoqList(paren(ops)), vh.CoqList(obs)),
+		Coq:        fmt.Sprintf("(mkCase %s %s %s %d)%%Z", vh.CoqList(initCoq), vh.CoqList(paren(ops)), vh.CoqList(obs), e.hashGen(1000003, 2305843009213693951)),
 		Obs:        hs,
 		Tags:       tl,
 		Nontrivial: nontrivial || len(ops) >= 5,
@@ -577,4 +614,21 @@ func main() {
 			vh.Guard(w, raw, failTerm, 20, func() vh.Record { return runCase(c) })
 		}
 	}
+}
+
+func hasDetachArg(o *Op) bool {
+	for _, a := range []*IArg{o.A1, o.A2, o.A3} {
+		if a != nil && a.D != 0 {
+			return true
+		}
+	}
+	if o.Val != nil && o.Val.D != 0 {
+		return true
+	}
+	for _, x := range o.Src {
+		if x.D != 0 {
+			return true
+		}
+	}
+	return false
 }
